@@ -2586,7 +2586,9 @@ def dc2(m, run):
         for ddir in ('u', 'v', 'uv', None):
             n += 1
             made, calls = [], []
-            obj = rec_shape(('BSpline', 'Surface'), made, dict(degree=[p, q], degree_u=p, degree_v=q, knotvector=[kvec(p, iu), kvec(q, iv)], pdimension=2, rational=False, dimension=3), {})
+            kvs0 = [kvec(p, iu), kvec(q, iv)]
+            obj = rec_shape(('BSpline', 'Surface'), made, dict(degree=[p, q], degree_u=p, degree_v=q, knotvector=kvs0, knotvector_u=kvs0[0], knotvector_v=kvs0[1],
+                                                               pdimension=2, rational=False, dimension=3), {})
 
             def splitter(d):
                 def f(sk, node, srf, *a, _d=d, **k):
@@ -2599,7 +2601,9 @@ def dc2(m, run):
                         raise Violation('DC2', 'split_surface_%s is asked to split at %r; the %s-knots of that piece have the ranks %s' % ('uv'[_d], prm, 'uv'[_d], ranks(kv)), node)
                     lkv = [x for x in kv if x.rank < prm.rank] + [Ord(prm.rank)] * (deg + 1)
                     rkv = [Ord(prm.rank)] * (deg + 1) + [x for x in kv if x.rank > prm.rank]
-                    mk = lambda nk: rec_shape(('BSpline', 'Surface'), made, dict(srf._a, knotvector=[nk if i == _d else list(kvs[i]) for i in range(2)]), {}, 'split')
+                    def mk(nk):
+                        nkv = [nk if i == _d else list(kvs[i]) for i in range(2)]
+                        return rec_shape(('BSpline', 'Surface'), made, dict(srf._a, knotvector=nkv, knotvector_u=nkv[0], knotvector_v=nkv[1]), {}, 'split')
                     return [mk(lkv), mk(rkv)]
                 return Py(f, 'split_surface_' + 'uv'[d])
             ab = dict(STD_ABSTRACTED)
